@@ -214,6 +214,7 @@ pub mod opaque {
     pub static mut NEW_COUNT: u32 = 0;
     pub static mut LAST_PENDING_ANSWER: bool = false;
     pub static mut DELIVERED: u32 = 0;
+    pub static mut DELIVER_FIXED: Option<bool> = None;
 
     pub fn reset() { unsafe { CALL_SEQ = 0; CALL_N = 0; NEW_COUNT = 0; DELIVERED = 0; } }
     fn log(c: u8) { unsafe { if CALL_N < CALLS { CALL_SEQ |= (c as u64) << (4 * CALL_N); } CALL_N += 1; } }
@@ -254,7 +255,9 @@ pub mod opaque {
         pub fn send(&mut self, data: Box<[u8]>, _channel_id: u8, _mode: SendMode) { log(SEND); std::mem::forget(data); }
         pub fn receive(&mut self, sink: &mut impl PacketSink) {
             log(RECEIVE);
-            if kani::any() { unsafe { DELIVERED += 1; } sink.send(Box::new([7u8])); }
+            // 0..1 packets per call; an obligation may pin the choice (it decides a heap-modifying branch, DESIGN.md 10.8)
+            let deliver: bool = match unsafe { DELIVER_FIXED } { Some(b) => b, None => kani::any() };
+            if deliver { unsafe { DELIVERED += 1; } sink.send(Box::new([7u8])); }
         }
         pub fn handle_data_frame(&mut self, f: frame::DataFrame) { log(DATA); std::mem::forget(f); }
         pub fn handle_sync_frame(&mut self, _f: frame::SyncFrame) { log(SYNC); }
